@@ -175,7 +175,7 @@ pub fn worker_genreport(args: &[String]) -> i32 {
 }
 
 pub fn run_genreport(dir: &str, v: &[(&'static str, Entries)], o: &[(&'static str, Entries)], q: &[(&'static str, Entries)], seed: u64) -> Result<String, String> {
-    let exe = std::env::current_exe().map_err(|e| e.to_string())?;
+    let exe = std::path::PathBuf::from("/proc/self/exe"); // the running image itself, even if the file on disk has been rebuilt meanwhile
     let mut child = std::process::Command::new(exe)
         .args(["worker", "genreport", dir])
         .stdin(std::process::Stdio::piped())
